@@ -209,11 +209,52 @@ Proof.
   destruct ign; split; apply Hd; auto.
 Qed.
 
+(* endings without any repeat sign, at the very beginning of the piece: the group repeats from the
+   beginning, wherever the part starts on its time axis (first = 0 or 5) *)
+Definition vl_marks_nosigns (first : Z) (l : vlayout) : marks :=
+  let '(_, es) := vl_objs (vl_head l) (vl_head l + vl_body l) (vl_total l) (vl_ends l) in
+  mkMarks first (first + vl_nmeas l) []
+          (map (fun v => match v with (s, e, ns) => (s + first, e + first, ns) end) es) [] [] [] [] [] [].
+
+Definition volta_start_ok (first : Z) (l : vlayout) : bool :=
+  let g := make_segments (vl_marks_nosigns first l) in
+  forallb (fun ign =>
+    opt_eqb zlist_eqb (single_path_measures g (get_paths FUEL g false true ign)) (Some (map (Z.add first) (vl_reference true l))) &&
+    opt_eqb zlist_eqb (single_path_measures g (get_paths FUEL g true false ign)) (Some (map (Z.add first) (vl_reference false l))))
+    [true; false].
+
+Definition from_start_layouts : list vlayout := filter (fun l => vl_head l =? 0) volta_layouts.
+
+Lemma volta_start_layouts_ok :
+  forallb (fun first => forallb (volta_start_ok first) from_start_layouts) [0; 5] = true.
+Proof. vm_cast_no_check (eq_refl true). Qed.
+
+Lemma from_start_layouts_nonempty : (60 <= length from_start_layouts)%nat.
+Proof. vm_compute. repeat constructor. Qed.
+
+Theorem volta_from_start_lemma : forall l first ign, In l volta_layouts -> vl_head l = 0 -> In first [0; 5] ->
+  let g := make_segments (vl_marks_nosigns first l) in
+  single_path_measures g (get_paths FUEL g false true ign) = Some (map (Z.add first) (vl_reference true l)) /\
+  single_path_measures g (get_paths FUEL g true false ign) = Some (map (Z.add first) (vl_reference false l)).
+Proof.
+  intros l first ign Hin Hh Hf g.
+  assert (Hl : In l from_start_layouts).
+  { unfold from_start_layouts. apply filter_In. split; [auto|]. rewrite Hh. reflexivity. }
+  pose proof (forallb_In _ _ volta_start_layouts_ok first Hf) as H0. cbv beta in H0.
+  pose proof (forallb_In _ _ H0 l Hl) as H. unfold volta_start_ok in H. fold g in H.
+  assert (Hd : forall a b, opt_eqb zlist_eqb a b = true -> a = b).
+  { intros [a|] [b|]; simpl; try discriminate; auto. intros E. f_equal.
+    apply (list_eqb_eq Z.eqb); auto. intros x y Hxy. apply Z.eqb_eq; auto. }
+  simpl in H. apply andb_true_iff in H as [Ht Hf']. apply andb_true_iff in Hf' as [Hf' _].
+  apply andb_true_iff in Ht as [T1 T2]. apply andb_true_iff in Hf' as [F1 F2].
+  destruct ign; split; apply Hd; auto.
+Qed.
+
 (* ------------------------------------------------------------------ *)
 (* a part without navigation marks: one segment from first to last going to END *)
 
 Theorem no_marks_segments_lemma : forall first last, first < last ->
-  exists ty, make_segments (mkMarks first last [] [] [] [] [] [] [] []) = [mkSeg 0 first last [END] [] ty].
+  make_segments (mkMarks first last [] [] [] [] [] [] [] []) = [mkSeg 0 first last [END] [] TLEAP_END].
 Proof.
   intros first last H. unfold make_segments, boundaries. simpl.
   destruct (first =? last) eqn:E1; [lia|]. simpl.
@@ -221,7 +262,7 @@ Proof.
   unfold seg_loop, init_infos, bget. simpl. rewrite Z.eqb_refl. simpl.
   unfold step_boundary. simpl. unfold id_at. simpl.
   destruct (last =? first) eqn:E3; [lia|]. rewrite Z.eqb_refl. simpl.
-  destruct (first =? 0); simpl; eexists; reflexivity.
+  reflexivity.
 Qed.
 
 (* ------------------------------------------------------------------ *)
